@@ -5,7 +5,7 @@ def _g(d, pkg, extra=None):
 
 SPEC = {
     "go": [
-        _g("", "ipfscluster", ["root/c18_shutdown_test.go"]),
+        _g("", "ipfscluster", ["root/c18_shutdown_test.go", "root/c18_statesync_test.go"]),
         _g("pintracker/optracker", "optracker"),
         _g("pintracker/stateless", "stateless"),
         _g("monitor/metrics", "metrics"),
@@ -26,6 +26,9 @@ SPEC = {
             "- the watcher's look before, while and after Shutdown holds shutdownLock, at each component call Shutdown makes "
             "under the lock; peer removed by others, by LeaveOnShutdown, by PeerRemove(self) or not; one or two Shutdown calls; "
             "ready() giving up, failing or finishing while Shutdown runs - a deadlock is a verdict from the goroutine dump; "
+            "root 'statesync-alerts': StateSync twice concurrently while ping alerts go through the real alertsHandler (re-pin of what the "
+            "failed peer holds) and Pins() is read, on a pinset with expired pins and pins held by the failed peer, the trusted peerset "
+            "growing all the time (cache misses of whatever the distance checkers share); "
             "crdt 'crdt-lifecycle': ~22 life-cycle scripts on the real Consensus, batching on and off - Shutdown before SetClient, "
             "right after SetClient, after Ready, after a setup() that gave up (pubsub topic taken), once / twice concurrently / again "
             "later, with LogPin/LogUnpin callers active; a Shutdown parked in a channel receive while neither setup() nor batchWorker() "
@@ -42,7 +45,7 @@ SPEC = {
                 "mutual-exclusion invariant, Proofs/C18_Conc.v mutex_reach)",
                 "callbacks handed to library calls (ring.Do) run synchronously; code of packages outside the seven analysed ones "
                 "takes none of the tracked locks and does not retain references handed to it"],
-    "level_text": "Theorems (Props/C18.v, 21, all closed): general — lockset_drf (disciplined threads never race, every interleaving of the "
+    "level_text": "Theorems (Props/C18.v, 22, all closed): general — lockset_drf (disciplined threads never race, every interleaving of the "
                   "mutex/rwmutex machine), acyclic_no_lock_deadlock (strictly ordered acquisition, pending writers included, never "
                   "deadlocks) and its generalisation acyclic_wait_for_no_deadlock for the machine with Wait g (a thread blocks until the "
                   "thread group g has finished): if 'holds L acquiring M' + 'holds L waiting for G' + 'a thread of G acquires L' + "
@@ -50,7 +53,8 @@ SPEC = {
                   "on the tables regenerated from the Go source at every run — discipline_holds, table_drf, "
                   "lock_order_acyclic, wait_graph_acyclic, table_no_wait_deadlock, table_covers_waits, waited_goroutines_always_started "
                   "(every plain receive from a channel field has a closer whose go statement is reached on every path of its launcher, "
-                  "up to a constructor), no_lock_leaks, accessors_atomic, "
+                  "up to a constructor), untracked_shared_fields (no map / slice field of the owner types that is mutated, assigned or handed on "
+                  "outside a constructor and reachable from two goroutine entry points is missing from the table), no_lock_leaks, accessors_atomic, "
                   "table_covers_guards; wait_graph_as_pinned_refuted (the pinned Shutdown / watchPeers / ready cycles, with a reachable "
                   "deadlocked state of the machine); on the object models — alerts_not_torn and "
                   "window_latest_atomic for the variant the table selects, with refutation witnesses for the pinned variants. A -race "
